@@ -184,7 +184,10 @@ def generate(ctx):
     cases = []
     njit, jit_limit = 0, (6 if ctx.quick else 40)
     for pid, (prog, steps, stratum) in enumerate(plan):
-        jit = bool(steps) and njit < jit_limit and pid % 3 == 0
+        # NumPy-evaluated densities cannot be traced; only models built from the JAX substrate are jitted
+        numpy_dist = prog["kind"] == "hier" and any(
+            d["dist"] and d["dist"].get("impl", "jax") != "jax" for d in prog["vars"] + prog["free"])
+        jit = bool(steps) and njit < jit_limit and pid % 3 == 0 and not numpy_dist
         njit += jit
         cs = run_program(prog, steps, pid, jit=jit)
         ctx.hist("program." + stratum)
